@@ -34,6 +34,11 @@ func depsFamily(c map[string]json.RawMessage) (interface{}, error) {
 		return map[string]interface{}{"deps": depsOut(deps.AnalysisMaven(p))}, nil
 	case "gradle":
 		return map[string]interface{}{"deps": depsOut(deps.AnalysisGradleString(str(c, "text")))}, nil
+	case "gradlesoup":
+		// any Gradle script: only termination without a crash is judged (how many entries were found is informational)
+		n := len(deps.AnalysisGradleString(str(c, "text")))
+		_ = n
+		return map[string]interface{}{"soup": true}, nil
 	case "unused":
 		dir, err := writeTree(c, "files")
 		if dir != "" {
